@@ -426,6 +426,8 @@ pub fn quick_tapes() -> Vec<(&'static str, Vec<Vec<u8>>)> {
     vec![
         ("data2", vec![std_block(0xFF, &[0xA5])]),
         ("hdr1+data130", vec![vec![0x00], std_block(0xFF, &(0..128u32).map(|i| (i * 2 + 1) as u8).collect::<Vec<u8>>())]),
+        // a short block after a block longer than the 128-byte read buffer
+        ("data131+data3", vec![std_block(0xFF, &(0..129u32).map(|i| (i * 5 + 2) as u8).collect::<Vec<u8>>()), std_block(0xFF, &[0x42])]),
     ]
 }
 
@@ -448,7 +450,8 @@ pub fn run(tier: Tier, seed: u64, replay: Option<String>) -> i32 {
         tapes.extend(thorough_tapes());
     }
     for (name, blocks) in tapes.iter() {
-        check_tape(&ctx, name, blocks);
+        let bj = json!({"kind":"prepass","tape":name,"blocks":blocks.iter().map(|b| crate::vcore::hex(b)).collect::<Vec<_>>()});
+        ctx.guard(&format!("tape {}", name), bj, || check_tape(&ctx, name, blocks));
     }
     ctx.note("tapes", json!(tapes.iter().map(|(n, b)| json!({"name":n,"block_lengths":b.iter().map(|x| x.len()).collect::<Vec<_>>()})).collect::<Vec<_>>()));
     ctx.note("step_alphabet", json!("process_clocks(s) for every s in 0..=16 from every reachable (tape state, time since last edge)"));
